@@ -22,6 +22,7 @@ EXPLANATION = (
     "result comprehension iterates the original key list; except arms inside the fallback loops fall through; the "
     "unavailable error is raised only after the last host."
 )
+SHARED = [('C08', ['R2', 'R5'], 'requests go to the address the current metadata names')]
 ASSUMPTIONS = ["dict/defaultdict preserve insertion order; DeferredList preserves the order of its input list"]
 KC = "client:KafkaClient"
 
